@@ -10,8 +10,8 @@ import (
 	"reflect"
 )
 
-// Flat has no embedding: two mandatory and several optional fields, one
-// field excluded with "-", one without tags.
+// Flat has no embedding: two mandatory and several optional fields and one
+// field excluded with "-".
 type Flat struct {
 	A *int64   `cbor:"1,keyasint,omitempty" json:"a,omitempty"`
 	B *string  `cbor:"2,keyasint" json:"b"`
@@ -20,8 +20,7 @@ type Flat struct {
 	E *bool    `cbor:"5,keyasint,omitempty" json:"e,omitempty"`
 	F *float64 `cbor:"600,keyasint,omitempty" json:"f,omitempty"`
 
-	Skip   string `cbor:"-" json:"-"`
-	NoTags int
+	Skip string `cbor:"-" json:"-"`
 }
 
 // Inner is embedded by the other shapes.
